@@ -28,6 +28,9 @@ def check_positions(country: str) -> list[int]:
     return list(range(s[0], s[1]))
 
 
+_SPELLINGS = [0]
+
+
 def three_ways(text: str):
     """-> dict entry point -> True (accepted) / False (library rejection) / 'foreign:<cls>' /
     'returned:<value>' for a BBAN-level success value that is not true."""
@@ -44,6 +47,19 @@ def three_ways(text: str):
         out["bban.validate_national_checksum()"] = True if v else f"returned:{v!r}"
     else:
         out["bban.validate_national_checksum()"] = False if k == "lib" else f"foreign:{v}"
+    _SPELLINGS[0] += 1
+    if _SPELLINGS[0] % 8:
+        return out
+    # (every eighth text) the request spelled in other ways: a truthy flag that is not the literal
+    # True, the keyword form of validate(), the assembly from the parts
+    bban = text[4:]
+    for name, f in (("IBAN(t,validate_bban=1)", lambda: lib.IBAN(text, validate_bban=1)),
+                    ("validate(validate_bban=True)", lambda: lib.IBAN(text).validate(validate_bban=True)),
+                    ("validate(1)", lambda: lib.IBAN(text, allow_invalid=True).validate(1)),
+                    ("from_bban(cc,bban,validate_bban=True)", lambda: lib.IBAN.from_bban(text[:2], bban, validate_bban=True)),
+                    ("from_bban(cc,BBAN,False,True)", lambda: lib.IBAN.from_bban(text[:2], lib.BBAN(text[:2], bban), False, True))):
+        k, v = lib.outcome(f)
+        out[name] = True if k == "ok" else (False if k == "lib" else f"foreign:{v}")
     return out
 
 
@@ -307,7 +323,46 @@ def optimised_child(tier):
     return part.done()
 
 
+def listed_shard(args):
+    """The verdict is that of the published algorithm WHATEVER the bank registry lists: for every
+    national country a registry is installed whose entries are filed under the bank-identifying key
+    of a nationally INVALID body (every check value tried), of the valid body, and under the bank code
+    alone; then the three ways of asking are judged for every value of the check field."""
+    from ..engine import sandbox
+    _, country, tier = args
+    part = par.Part()
+    c = reg.countries()[country]
+    if not c.positions or any(c.span(x) is None for x in c.lookup_components):
+        return part.done()
+    before = sandbox.deep_snapshot()
+    cl = bases.classes_of(c)
+    cps = check_positions(country)
+    body = bases.bban(c, "distinct")
+    variants = []
+    for vals in itertools.product(*[reg.CLASS_CHARS[cl[p]] for p in cps]):
+        chars = list(body)
+        for p, v in zip(cps, vals):
+            chars[p] = v
+        variants.append("".join(chars))
+    variants = variants[: (100 if tier == "quick" else 1000)]
+    keys = list(dict.fromkeys([c.lookup_key(b) for b in variants] + [c.component(body, "bank_code")]))
+    banks = [{"country_code": country, "bank_code": k, "bic": f"AAAA{country}AA", "name": "listed", "short_name": "l",
+              "primary": True} for k in keys if k]
+    with sandbox.bank_list(banks):
+        for b in variants:
+            part.count((country, "listed", b))
+            st, sig, exp, obs = judge(country, b)
+            if st == "bad":
+                part.violation(sig + " [bank listed in a synthetic registry]",
+                               {"kind": "c06listed", "country": country, "bban": b}, exp, obs)
+    sandbox.assert_restored(before)
+    part.stat("countries_judged_with_every_key_listed")
+    return part.done()
+
+
 def shard(args):
+    if args[0] == "listed":
+        return listed_shard(args)
     if args[0] == "python -O":
         return par.in_interpreter(["-O"], "mc.props.c06", "optimised_child", args[1])
     if args[0] == "bank":
@@ -316,6 +371,7 @@ def shard(args):
 
 
 def replay(case: dict) -> dict:
+    _SPELLINGS[0] = 7  # the replayed text gets every spelling of the request
     if case.get("interpreter") == "-O":
         part = par.in_interpreter(["-O"], "mc.props.c06", "optimised_child", "quick")
         hit = [v for v in part["violations"] if v["case"]["bban"] == case["bban"]]
@@ -332,11 +388,16 @@ def replay(case: dict) -> dict:
             return {"ok": k4 != "foreign" and (k4 == "ok") is exp4, "expected": exp4, "observed": (k4, v4)}
         status, sig, exp, obs = judge(case["country"], case["bban"])
         return {"ok": status != "bad", "signature": sig, "expected": exp, "observed": obs}
+    if case["kind"] == "c06listed":
+        part = listed_shard(("listed", case["country"], "quick"))
+        hit = [v for v in part["violations"] if v["case"]["bban"] == case["bban"]]
+        return {"ok": not hit, "observed": hit[0]["observed"] if hit else None}
     if case["kind"] == "c06bank":
         lib.iban_parse(bases.iban_text("DE", "37040044" + "0532013000"), True)
         status, sig, exp, obs = judge(case["country"], case["bban"])
         return {"ok": status != "bad", "signature": sig, "expected": exp, "observed": obs}
     if case["kind"] == "c06":
+        _SPELLINGS[0] = 7
         status, sig, exp, obs = judge(case["country"], case["bban"])
         return {"ok": status != "bad", "signature": sig, "expected": exp, "observed": obs}
     a = lib.iban_parse(case["text"], True)
@@ -350,7 +411,7 @@ def main(tier: str) -> int:
     table = reg.countries()
     natc = sorted(k for k in nat.COUNTRIES if k in table)
     shards = [("nat", c, tier, f) for c in natc for f in accepted_fillers(c, tier)] + [("other", c, tier) for c in sorted(table)]
-    shards += [("bank", c, tier) for c in natc] + [("python -O", tier)]
+    shards += [("bank", c, tier) for c in natc] + [("python -O", tier)] + [("listed", c, tier) for c in natc]
     par.run_shards(run, shard, shards)
     run.extra.update({"national_countries": natc,
                       "missing_from_table": sorted(nat.COUNTRIES - set(table)),
